@@ -376,7 +376,7 @@ func (s *Store) GetNamespacedIdentifier(val string, localNamespaces map[string]s
 		// check for global expansion
 		prefix, err := s.NamespaceManager.AssertPrefixMappingForExpansion(expansion)
 		if err != nil {
-			return "", nil
+			return "", err
 		}
 		return prefix + ":" + lastPathPart, nil
 	}
